@@ -268,7 +268,12 @@ def check_case(case, rec):
         # the loss rule speaks about rays that complete the sequence in the original lens (a ray that the original
         # lens itself loses further on may well be travelling backwards where the dummy stands)
         reach = np.isfinite(A['x'][-1])
-        lost_img = lost & reach
+        # a ray recorded on surface g beyond the dummy plane (far-sheet intersection of a strongly curved conic, known
+        # C02 mechanism) has the plane behind it: that it is lost there is the documented behaviour, not a loss
+        zd = float(np.ravel(lens2.surface_group.surfaces[g + 1].geometry.cs.z)[0])
+        with np.errstate(invalid='ignore'):
+            behind = (zd - A['z'][g]) * A['N'][g] < 0
+        lost_img = lost & reach & ~behind
         rec.check('dummy-surface', reach.sum() < 6 or lost_img.sum() <= 0.5 * reach.sum(), key='dummy-surface:loses-rays',
                   msg=f'a dummy plane after surface {g} lost {int(lost_img.sum())} of {int(reach.sum())} rays that reach the image')
         B = {f: np.delete(v, g + 1, axis=0) for f, v in B.items()}
